@@ -38,6 +38,8 @@ pub struct Program {
     /// situation class put in front of panic signatures
     pub class: &'static str,
     pub name: String,
+    /// machine-readable description from which `program_from_spec` rebuilds the program
+    pub spec: String,
     /// schedule at lock requests only (deadlock search)
     pub locks_only: bool,
     pub setup: Box<dyn Fn(&Path) -> World + Sync>,
@@ -148,6 +150,8 @@ pub struct Stats {
 
 pub struct FoundSched {
     pub program: String,
+    pub spec: String,
+    pub writer_preference: bool,
     pub property: String,
     pub signature: String,
     pub detail: String,
@@ -186,6 +190,8 @@ pub fn explore(
         if let Some(d) = &x.verdict.divergence {
             found.push(FoundSched {
                 program: p.name.clone(),
+                spec: p.spec.clone(),
+                writer_preference,
                 property: "MACHINERY".into(),
                 signature: format!("divergence:{d}"),
                 detail: d.clone(),
@@ -212,6 +218,8 @@ pub fn explore(
             if seen_sig.insert(sig.clone()) {
                 found.push(FoundSched {
                     program: p.name.clone(),
+                    spec: p.spec.clone(),
+                    writer_preference,
                     property: "C11".into(),
                     signature: sig,
                     detail: d.clone(),
@@ -223,6 +231,8 @@ pub fn explore(
         if x.verdict.horizon {
             found.push(FoundSched {
                 program: p.name.clone(),
+                spec: p.spec.clone(),
+                writer_preference,
                 property: "C11".into(),
                 signature: "horizon|no_quiescence".into(),
                 detail: "execution did not finish within the step horizon (livelock?)".into(),
@@ -235,6 +245,8 @@ pub fn explore(
             if seen_sig.insert(s) {
                 found.push(FoundSched {
                     program: p.name.clone(),
+                    spec: p.spec.clone(),
+                    writer_preference,
                     property: prop.clone(),
                     signature: sig.clone(),
                     detail: detail.clone(),
@@ -321,6 +333,20 @@ fn pattern(k: usize, from: usize, len: usize) -> Vec<u8> {
     (from..from + len).map(|o| 1 + ((k * 67 + o + o / 251) % 255) as u8).collect()
 }
 
+/// Names the way `got` differs from `want`, of which the bytes from `fresh_from` on were
+/// written by the operation that just returned (situation class of finding signatures).
+fn diff_class(got: &[u8], want: &[u8], fresh_from: usize) -> &'static str {
+    if got.len() != want.len() {
+        return "length differs";
+    }
+    let diffs: Vec<usize> = (0..got.len()).filter(|&i| got[i] != want[i]).collect();
+    if diffs.iter().all(|&i| got[i] == 0) {
+        if diffs.iter().all(|&i| i >= fresh_from) { "just-written bytes read back as zeros" } else { "older bytes read back as zeros" }
+    } else {
+        "foreign bytes"
+    }
+}
+
 /// Executes `op` on thread k's own region; `model` is the thread-private expected content.
 fn run_cop(w: &World, k: usize, op: COp, model: &mut Option<Vec<u8>>, name: &mut String, verify: bool) -> Result<String, String> {
     let e = |x: rawdb::Error| format!("{x:?}").split([' ', '(', '{']).next().unwrap_or("").to_string();
@@ -332,6 +358,7 @@ fn run_cop(w: &World, k: usize, op: COp, model: &mut Option<Vec<u8>>, name: &mut
         *name = "hx".to_string();
         *model = Some(pattern(31, 0, 100));
     }
+    let fresh_from = model.as_ref().map_or(0, |m| m.len());
     let region = || w.db.get_region(name).ok_or_else(|| "region missing".to_string());
     let needs_region = !matches!(
         op,
@@ -395,7 +422,7 @@ fn run_cop(w: &World, k: usize, op: COp, model: &mut Option<Vec<u8>>, name: &mut
             r.write(&d).map_err(e)?;
             let back = r.create_reader().read_all().to_vec();
             if back != d {
-                return Err("created region does not read back its own bytes".into());
+                return Err(format!("{}: created region does not read back its own bytes", diff_class(&back, &d, 0)));
             }
         }
         COp::RegionFlush => {
@@ -423,7 +450,7 @@ fn run_cop(w: &World, k: usize, op: COp, model: &mut Option<Vec<u8>>, name: &mut
             drop(reader);
             if let Some(m) = model {
                 if &got != m {
-                    return Err(format!("reader returned {} bytes that differ from the region's own {} bytes", got.len(), m.len()));
+                    return Err(format!("{}: reader returned {} bytes that differ from the region's own {} bytes", diff_class(&got, m, m.len()), got.len(), m.len()));
                 }
             }
         }
@@ -442,14 +469,15 @@ fn run_cop(w: &World, k: usize, op: COp, model: &mut Option<Vec<u8>>, name: &mut
             if &got != m {
                 let first = got.iter().zip(m.iter()).position(|(a, b)| a != b).unwrap_or(got.len().min(m.len()));
                 return Err(format!(
-                    "after {op:?}: region '{name}' has {} bytes, expected {}, first difference at {first} (got {:?})",
+                    "{}: after {op:?}: region '{name}' has {} bytes, expected {}, first difference at {first} (got {:?})",
+                    diff_class(&got, m, fresh_from),
                     got.len(),
                     m.len(),
                     got.get(first)
                 ));
             }
         } else {
-            return Err(format!("after {op:?}: region '{name}' disappeared"));
+            return Err(format!("region disappeared: after {op:?}: region '{name}' disappeared"));
         }
     }
     Ok(format!("{op:?}"))
@@ -517,10 +545,15 @@ pub fn region_program_with(ops: Vec<Vec<COp>>, verify: bool) -> Program {
     }
     let class: &'static str = Box::leak(format!("{};", flags.join(";")).into_boxed_str());
     let with_hole = ops.iter().flatten().any(|o| *o == COp::ExpandHole);
+    let spec = format!(
+        "region:{verify}:{}",
+        ops.iter().map(|t| t.iter().map(|o| format!("{o:?}")).collect::<Vec<_>>().join("+")).collect::<Vec<_>>().join("|")
+    );
     Program {
         panic_property: "C10,C12",
         class,
         name,
+        spec,
         locks_only: !verify,
         setup: Box::new(move |d| region_world(d, n, with_hole)),
         bodies: Box::new(move |_w| {
@@ -535,7 +568,11 @@ pub fn region_program_with(ops: Vec<Vec<COp>>, verify: bool) -> Program {
                         for op in list {
                             match run_cop(w, k, op, &mut model, &mut name, verify) {
                                 Ok(s) => out.push(s),
-                                Err(e) => out.push(format!("ERR {e}")),
+                                Err(e) => {
+                                    // model and implementation disagree from here on
+                                    out.push(format!("ERR {e}"));
+                                    break;
+                                }
                             }
                         }
                         out.push(format!("final:{}:{}", name, model.as_ref().map_or(0, |m| m.len())));
@@ -551,7 +588,7 @@ pub fn region_program_with(ops: Vec<Vec<COp>>, verify: bool) -> Program {
                 if let Ok(list) = r {
                     for l in list {
                         if let Some(e) = l.strip_prefix("ERR ") {
-                            let kind = if e.contains("differ") || e.contains("expected") || e.contains("disappeared") || e.contains("read back") {
+                            let kind = if e.contains("differ") || e.contains("expected") || e.contains("disappeared") || e.contains("read back") || e.contains("foreign bytes") {
                                 "isolation"
                             } else {
                                 "error"
@@ -701,6 +738,7 @@ pub fn vec_program_n(fmt: VFmt, initial: usize, k: usize, rounds: usize, readers
         panic_property: "C09",
         class,
         name,
+        spec: format!("vec:{fmt:?}:{initial}:{k}:{rounds}:{readers}:{locks_only}:{grower}:{neighbour}"),
         locks_only,
         setup: Box::new(|d| World {
             dir: d.to_path_buf(),
@@ -866,7 +904,7 @@ pub fn run_jobs(run: &mut Run, kf: &KnownFindings, property: &str, jobs: Vec<Job
                 violation: v,
                 known: d == Disposition::Known,
             },
-            json!({"engine": "chessx", "program": f.program, "schedule": f.schedule}),
+            json!({"engine": "chessx", "program": f.program, "spec": f.spec, "writer_preference": f.writer_preference, "schedule": f.schedule}),
         );
     }
     if run.coverage.get("samples").and_then(|s| s.as_array()).is_none_or(|a| a.is_empty()) {
@@ -1072,4 +1110,66 @@ pub fn plan(property: &str, tier: &str) -> Vec<Job> {
         _ => {}
     }
     jobs
+}
+
+// ---------------------------------------------------------------------------------------
+// replay
+// ---------------------------------------------------------------------------------------
+
+pub fn program_from_spec(spec: &str) -> Option<Program> {
+    let parts: Vec<&str> = spec.split(':').collect();
+    match parts.first().copied()? {
+        "region" => {
+            let verify = parts.get(1)?.parse().ok()?;
+            let ops: Vec<Vec<COp>> = parts.get(2)?.split('|').map(|t| t.split('+').map(parse_cop).collect()).collect();
+            Some(region_program_with(ops, verify))
+        }
+        "vec" => {
+            let fmt = match *parts.get(1)? {
+                "Bytes" => VFmt::Bytes,
+                "ZeroCopy" => VFmt::ZeroCopy,
+                "Pco" => VFmt::Pco,
+                "Lz4" => VFmt::Lz4,
+                _ => return None,
+            };
+            let n = |i: usize| -> Option<usize> { parts.get(i)?.parse().ok() };
+            let b = |i: usize| -> Option<bool> { parts.get(i)?.parse().ok() };
+            Some(vec_program_n(fmt, n(2)?, n(3)?, n(4)?, n(5)?, b(6)?, b(7)?, b(8)?))
+        }
+        "open" => crate::openx::thread_programs(true).into_iter().map(|j| j.program).find(|p| p.spec == spec),
+        _ => None,
+    }
+}
+
+/// Re-executes one recorded schedule twice (the executions must agree) and reports what the
+/// oracles say about it. `VERIF_CHESS_VERBOSE=1` prints every tap event with its thread.
+pub fn replay(doc: &serde_json::Value) -> i32 {
+    let r = &doc["replay"];
+    let spec = r["spec"].as_str().unwrap_or("");
+    let Some(p) = program_from_spec(spec) else {
+        eprintln!("cannot rebuild program from spec '{spec}'");
+        return 2;
+    };
+    let schedule: Vec<u16> = r["schedule"].as_array().map(|a| a.iter().map(|v| v.as_u64().unwrap_or(0) as u16).collect()).unwrap_or_default();
+    let wp = r["writer_preference"].as_bool().unwrap_or(true);
+    let root = Scratch::new("chessx-replay");
+    let mut outcomes = Vec::new();
+    for _ in 0..2 {
+        let x = run_once(&p, &schedule, wp, &root.sub("x"));
+        let mut out: Vec<String> = Vec::new();
+        if let Some(d) = &x.verdict.divergence {
+            eprintln!("MACHINERY-ERROR: schedule diverges: {d}");
+            return 3;
+        }
+        if let Some(d) = &x.verdict.deadlock {
+            out.push(format!("C11: deadlock {d}"));
+        }
+        for (prop, sig, detail) in &x.violations {
+            out.push(format!("{prop}: {sig}: {detail}"));
+        }
+        out.sort();
+        outcomes.push(out);
+    }
+    println!("program: {} (spec {spec})", p.name);
+    crate::finish_replay(doc, doc["property"].as_str().unwrap_or("?"), outcomes)
 }
